@@ -184,6 +184,30 @@ let cmd_y id kfl ihex calls ohex frames =
   Printf.printf "%s OK %s bad=%d chunks=%s\n" id (if Buffer.length rec_ = 0 then "-" else Buffer.contents rec_) (b2i t.t_bad)
     (String.concat "," (List.rev_map (fun ((n, l), o) -> Printf.sprintf "%s:%d:%s" (string_of_n n) (b2i l) (string_of_n o)) t.t_chunks))
 
+(* YS <id> <kflags> <inputhex> <calls>   the same buffering model around the STORE compressor (Stream/StoreStream.v):
+   prints every byte it emits; on incompressible input with a checksum and no content size this must be the real output *)
+let cmd_ys id kfl ihex calls =
+  let fl = split ',' kfl in
+  let p = { kp_stableIn = List.mem "si" fl; kp_stableOut = List.mem "so" fl; kp_magicless = List.mem "ml" fl } in
+  let inp = arr_of_hex ihex in
+  let k = ref sk_new and ipos = ref 0 and stop = ref false in
+  let out = Buffer.create 4096 in
+  List.iter (fun c ->
+    if not !stop then begin
+      match String.split_on_char ':' c with
+      | [a; b; d; wl; mb; pl] ->
+        let offered = int_of_string a and cap = int_of_string b in
+        let dir = (match d with "0" -> DirContinue | "1" -> DirFlush | _ -> DirEnd) in
+        let fc = { fc_windowLog = n_of_string wl; fc_maxBlock = n_of_string mb;
+                   fc_pledge = (if pl = "-" then n_of_string "18446744073709551615" else n_of_string pl) } in
+        let o = skstep p fc !k (slice inp !ipos offered) (n_of_int cap) dir in
+        (match o.ko_ret with Some _ -> () | None -> stop := true);
+        add_hex out o.ko_out;
+        k := o.ko_k; ipos := !ipos + int_of_z o.ko_consumed
+      | _ -> ()
+    end) (split ';' calls);
+  Printf.printf "%s OK %s\n" id (hex_of_buf out)
+
 (* decimal string (optional leading '-') -> Z *)
 let z_of_string s =
   if s = "" then Z0
@@ -224,6 +248,7 @@ let () =
           | "O" -> let (p, _) = parse_dflags t.(2) in print_res t.(1) (roneshot p (slice (arr_of_hex t.(3)) 0 max_int) (n_of_string t.(4)))
           | "B" -> cmd_b t.(1) t.(2) t.(3)
           | "Y" -> cmd_y t.(1) t.(2) t.(3) t.(4) t.(5) (if Array.length t > 6 then t.(6) else "-")
+          | "YS" -> cmd_ys t.(1) t.(2) t.(3) t.(4)
           | "W" -> cmd_w t.(1) t.(2) t.(3) t.(4)
           | _ -> Printf.printf "? BADCMD\n"
         end
